@@ -24,6 +24,13 @@ FINE_ZPT = ("template.py", "loader.py")
 COARSE = ("compiler.py", "parser.py", "tokenize.py", "codegen.py",
           "astutil.py", "tales.py", "program.py", "nodes.py", "exc.py")
 GEN_RE = re.compile(r"[0-9a-f]{32}\.py$")
+# code-generation steps that work on per-compilation state (a switch to
+# another compiling thread here is where shared compile-time state shows)
+COMPILE_HOT = {"visit_TranslationContext", "visit_Translate", "visit_Name",
+               "visit_EmitText", "visit_TokenRef", "visit_Cache",
+               "visit_OnError", "visit_Define", "visit_Macro",
+               "visit_UseExternalMacro", "visit_Static", "visit_Symbol",
+               "define", "require"}
 SHARED_FUNCS = {"cook", "cook_check", "load", "_load", "build", "get",
                 "__getitem__", "names", "render", "include", "_cook",
                 "read", "mtime", "resolve_dotted"}
@@ -89,7 +96,8 @@ def _on_start(code, offset):
             t = sched.current()
             if t is not None:
                 _state["starts"] += 1
-                sched.yield_point("call:" + code.co_name)
+                sched.yield_point("call:" + code.co_name,
+                                  interesting=code.co_name in COMPILE_HOT)
         return None
     return mon.DISABLE
 
